@@ -32,11 +32,11 @@ class FlatGen(Gen):
         menu = h[0] == "operation" and h[2] == "message_SwitchMenu"
         cases: list = []
         has_default = False
-        n = self.r.randint(1, 4)
+        n = self.r.randint(1, 5)
         for i in range(n):
             body_here = i == n - 1 or self.r.random() < 0.7
             # (an empty break-terminated case `case X: break;` is a block of zero plain statements)
-            body = (self.plain_block(0 if self.r.random() < 0.25 else 1) + [[A("ctrl"), A("break")]]) if body_here else []
+            body = (([] if self.r.random() < 0.3 else self.plain_block(1)) + [[A("ctrl"), A("break")]]) if body_here else []
             if not has_default and self.r.random() < 0.25:
                 has_default = True
                 cases.append([A("default"), body])
